@@ -1,4 +1,13 @@
 import P2.Props.C18
+import P2.Props.C18b
 #print axioms P2.Props.C18.validateShape_never_panics
 #print axioms P2.Props.C18.bad_shape_is_clean_error
 #print axioms P2.Props.C18.firstBad_not_panic
+#print axioms P2.Props.C18b.fri_validateShape_never_panics
+#print axioms P2.Props.C18b.fri_validateShape_accept_facts
+#print axioms P2.Props.C18b.fri_verify_never_panics
+#print axioms P2.Props.C18b.getChallenges_betas_length
+#print axioms P2.Props.C18b.getChallenges_queryIndices_lt
+#print axioms P2.Props.C18b.friInstance_wf
+#print axioms P2.Props.C18b.plonk_verify_never_panics
+#print axioms P2.Lemmas.FriShape.validateShape_eq
